@@ -11,8 +11,18 @@ fn arg(args: &[String], name: &str) -> Option<String> {
 }
 
 fn main() {
-    lsverif::init();
     let args: Vec<String> = std::env::args().collect();
+    // knobs that must work as command-line arguments: cargo-miri replays the environment it saw
+    // when the binary was *built*, so environment variables set for a later run are overridden
+    for (flag, var) in [("--part", "LSVERIF_PART"), ("--depth", "LSVERIF_DEPTH"), ("--shim", "LSVERIF_SHIM"), ("--hosted", "LSVERIF_MIRI")] {
+        match arg(&args, flag) {
+            // SAFETY: single-threaded, nothing has read the environment yet
+            Some(v) => unsafe { std::env::set_var(var, v) },
+            None if flag != "--depth" && std::env::var_os("LSVERIF_KEEP_ENV").is_none() && args.iter().any(|a| a == "--hosted") => unsafe { std::env::remove_var(var) },
+            None => {}
+        }
+    }
+    lsverif::init();
     if let Some(path) = arg(&args, "--replay") {
         std::process::exit(plans::replay_file(&path));
     }
